@@ -5,6 +5,8 @@ mod common;
 mod refcheck;
 mod c01;
 mod c03;
+mod c04;
+mod c05;
 
 use common::*;
 
@@ -20,6 +22,10 @@ fn main() {
         "refcheck" => refcheck::run(&args),
         "c01" => c01::run(&args),
         "c03" => c03::run(&args),
+        "c04" => c04::run(&args),
+        "c05" => c05::run(&args),
+        "c05depth" => c05::run_depth(&args),
+        "c05case" => c05::run_one(&args),
         other => {
             eprintln!("unknown subcommand {}", other);
             std::process::exit(2);
